@@ -4,12 +4,12 @@ CONSTANTS
   HostileNames <- MC_NoHostile
   MaxOps = 3
   MaxIno = 10
-  Cfg <- MC_Cfg_seal
-  AsFound <- MC_AF_none
+  Cfg <- MC_Cfg_seal_noopen
+  AsFound <- MC_AF_c18r
   Mode = "c18"
   InitS <- MC_S_plain
-  ScenCfg <- MC_Scen_seal
+  ScenCfg <- MC_Scen_seal_noopen
   ScenTree <- MC_Tree_plain
 VIEW View
-INVARIANTS TreeOK HandlesOK SwitchesOK Sealed SealRulesOK Report
+INVARIANTS TreeOK Sealed SwitchesOK
 CHECK_DEADLOCK FALSE
